@@ -21,6 +21,7 @@ import (
 	"errors"
 	"fmt"
 	"math"
+	"reflect"
 	"sort"
 	"strings"
 
@@ -29,6 +30,7 @@ import (
 	"google.golang.org/protobuf/reflect/protorange"
 	"google.golang.org/protobuf/reflect/protoreflect"
 	"google.golang.org/protobuf/reflect/protoregistry"
+	"google.golang.org/protobuf/runtime/protoimpl"
 	"google.golang.org/protobuf/types/dynamicpb"
 	"google.golang.org/protobuf/zverif/corpus"
 	"google.golang.org/protobuf/zverif/model"
@@ -113,8 +115,49 @@ func keyLabel(k protoreflect.MapKey) string {
 	}
 }
 
+var fieldLabels = map[protoreflect.FieldDescriptor]string{}
+
 func fieldLabel(fd protoreflect.FieldDescriptor) string {
-	return fmt.Sprintf(".%s#%d", fd.FullName(), fd.Number())
+	if l, ok := fieldLabels[fd]; ok {
+		return l
+	}
+	l := fmt.Sprintf(".%s#%d", fd.FullName(), fd.Number())
+	fieldLabels[fd] = l
+	return l
+}
+
+var indexLabels = func() (out [64]string) {
+	for i := range out {
+		out[i] = fmt.Sprintf("[%d]", i)
+	}
+	return
+}()
+
+func indexLabel(i int) string {
+	if i >= 0 && i < len(indexLabels) {
+		return indexLabels[i]
+	}
+	return fmt.Sprintf("[%d]", i)
+}
+
+// event is one callback: push or pop, with the labels of the whole path it was given.
+type event struct {
+	push bool
+	path []string
+}
+
+func (e event) String() string { return eventLabel(e.push, e.path) }
+
+func (e event) equal(f event) bool {
+	if e.push != f.push || len(e.path) != len(f.path) {
+		return false
+	}
+	for i := range e.path {
+		if e.path[i] != f.path[i] {
+			return false
+		}
+	}
+	return true
 }
 
 type refBuilder struct {
@@ -209,7 +252,7 @@ func (b *refBuilder) message(n *node, m protoreflect.Message, inAny bool) {
 			b.info.lists++
 			l := f.v.List()
 			for i := 0; i < l.Len(); i++ {
-				e := b.add(k, fmt.Sprintf("[%d]", i), protopath.ListIndexStep)
+				e := b.add(k, indexLabel(i), protopath.ListIndexStep)
 				if f.fd.Message() != nil {
 					b.message(e, l.Get(i).Message(), inAny)
 				}
@@ -269,7 +312,7 @@ type walker struct {
 	plan        map[int]string
 	mode        string
 	k           int
-	events      []string
+	events      []event
 	terminating bool
 	errs        int // injected errors handed out
 	fired       []fired
@@ -279,7 +322,7 @@ func (w *walker) callback(push bool, path []string, n *node) string {
 	if push && w.mode == "pop" || !push && w.mode == "push" {
 		return ""
 	}
-	w.events = append(w.events, eventLabel(push, path))
+	w.events = append(w.events, event{push, append([]string(nil), path...)})
 	a := w.plan[w.k]
 	w.k++
 	if a != "" {
@@ -361,7 +404,7 @@ func stepLabel(s protopath.Step) string {
 	case protopath.UnknownAccessStep:
 		return ".?"
 	case protopath.ListIndexStep:
-		return fmt.Sprintf("[%d]", s.ListIndex())
+		return indexLabel(s.ListIndex())
 	case protopath.MapIndexStep:
 		return "[" + keyLabel(s.MapIndex()) + "]"
 	case protopath.AnyExpandStep:
@@ -375,11 +418,12 @@ type observer struct {
 	res      resolver
 	plan     map[int]string
 	k        int
-	events   []string
+	events   []event
 	paths    [][]string
 	bad      error // first violated invariant
 	bodiesOK map[protoreflect.Message]bool
 	returned []error
+	stack    []seen
 }
 
 func sameMessage(a, b protoreflect.Message) (same bool) {
@@ -388,7 +432,12 @@ func sameMessage(a, b protoreflect.Message) (same bool) {
 			same = false
 		}
 	}()
-	return a == b
+	if a == b {
+		return true
+	}
+	// messages of the pre-APIv2 generations are wrapped anew by every Get: compare the wrapped value
+	x, y := protoimpl.X.ProtoMessageV1Of(a.Interface()), protoimpl.X.ProtoMessageV1Of(b.Interface())
+	return x != nil && x == y && reflect.TypeOf(x).Kind() == reflect.Pointer
 }
 
 func deepEqual(a, b protoreflect.Message) bool {
@@ -537,23 +586,11 @@ func (o *observer) see(push bool, p protopath.Values) error {
 	for i, s := range p.Path {
 		labels[i] = stepLabel(s)
 	}
-	ev := eventLabel(push, labels)
+	ev := event{push, labels}
 	o.events = append(o.events, ev)
 	o.paths = append(o.paths, labels)
 	if o.bad == nil {
-		r := p.Path[0]
-		rm, ok := p.Values[0].Interface().(protoreflect.Message)
-		switch {
-		case r.Kind() != protopath.RootStep || r.MessageDescriptor() == nil || r.MessageDescriptor().FullName() != o.root.Descriptor().FullName():
-			o.fail(fmt.Errorf("%s: first step is not Root(%s)", ev, o.root.Descriptor().FullName()))
-		case !ok || !sameMessage(rm, o.root):
-			o.fail(fmt.Errorf("%s: first value is not the message passed to Range", ev))
-		}
-		for i := 1; i < len(p.Path) && o.bad == nil; i++ {
-			if err := o.apply(p.Path[i], p.Values[i-1], p.Values[i]); err != nil {
-				o.fail(fmt.Errorf("%s: step %d (%s): %v", ev, i, labels[i], err))
-			}
-		}
+		o.verify(push, ev, labels, p)
 	}
 	a := o.plan[o.k]
 	o.k++
@@ -568,6 +605,60 @@ func (o *observer) see(push bool, p protopath.Values) error {
 		return err
 	}
 	return nil
+}
+
+// verify checks one callback's path and values. The last step is applied to its parent value in
+// full; the steps above it must be the very values earlier callbacks showed at the same depth
+// (those were verified when they were the last step), so that every step's value is checked
+// against its parent once per callback that introduces it. When only pop callbacks are installed
+// a parent is seen before it is itself the last step: then the whole chain is applied.
+func (o *observer) verify(push bool, ev event, labels []string, p protopath.Values) {
+	r := p.Path[0]
+	rm, ok := p.Values[0].Interface().(protoreflect.Message)
+	switch {
+	case r.Kind() != protopath.RootStep || r.MessageDescriptor() == nil || r.MessageDescriptor().FullName() != o.root.Descriptor().FullName():
+		o.fail(fmt.Errorf("%s: first step is not Root(%s)", ev, o.root.Descriptor().FullName()))
+		return
+	case !ok || !sameMessage(rm, o.root):
+		o.fail(fmt.Errorf("%s: first value is not the message passed to Range", ev))
+		return
+	}
+	n := len(p.Path)
+	for i := 1; i < n; i++ {
+		if i < len(o.stack) && o.stack[i].label == labels[i] && identical(o.stack[i-1].v, p.Values[i-1]) && identical(o.stack[i].v, p.Values[i]) {
+			continue // verified by the callback that put it on the stack
+		}
+		if err := o.apply(p.Path[i], p.Values[i-1], p.Values[i]); err != nil {
+			o.fail(fmt.Errorf("%s: step %d (%s): %v", ev, i, labels[i], err))
+			return
+		}
+	}
+	o.stack = o.stack[:0]
+	for i := 0; i < n; i++ {
+		o.stack = append(o.stack, seen{label: labels[i], v: p.Values[i]})
+	}
+	if !push {
+		o.stack = o.stack[:n-1]
+	}
+}
+
+type seen struct {
+	label string
+	v     protoreflect.Value
+}
+
+// identical: the same value object (messages, lists, maps by identity; scalars by bits).
+func identical(a, b protoreflect.Value) (same bool) {
+	defer func() {
+		if recover() != nil {
+			same = false
+		}
+	}()
+	switch x := a.Interface().(type) {
+	case protoreflect.Message, protoreflect.List, protoreflect.Map:
+		return x == b.Interface()
+	}
+	return sameValue(a, b)
 }
 
 func (o *observer) fail(err error) {
@@ -624,17 +715,73 @@ type runInfo struct {
 	events int
 }
 
-func runOne(c *rangeCase) (*runInfo, error) {
+type prepared struct {
+	c        *rangeCase
+	m        protoreflect.Message
+	opt, eff resolver
+	root     *node
+	info     *treeInfo
+	before   []byte
+	snap     *model.Msg
+}
+
+var detMarshal = proto.MarshalOptions{Deterministic: true, AllowPartial: true}
+
+func prepare(c *rangeCase) (*prepared, error) {
 	m, err := c.newMessage()
 	if err != nil {
 		return nil, err
 	}
-	opt, eff := c.resolver()
-	before := model.Snapshot(m)
-	root, info := buildReference(m, eff)
-	ri := &runInfo{tree: info}
+	p := &prepared{c: c, m: m}
+	p.opt, p.eff = c.resolver()
+	if p.before, err = detMarshal.Marshal(m.Interface()); err != nil {
+		p.before, p.snap = nil, model.Snapshot(m)
+	}
+	p.root, p.info = buildReference(m, p.eff)
+	return p, nil
+}
 
-	obs := &observer{root: m, res: eff, plan: map[int]string{}, bodiesOK: map[protoreflect.Message]bool{}}
+// unchanged: a traversal whose callbacks change nothing leaves the message alone (the bytes of an
+// Any.value included).
+func (p *prepared) unchanged() error {
+	if p.snap != nil {
+		if d := model.Diff(p.m.Descriptor(), p.snap, model.Snapshot(p.m), model.EqualOpts{BitwiseFloats: true}, nil); d != "" {
+			return fmt.Errorf("message changed by a read-only traversal: %s", d)
+		}
+		return nil
+	}
+	after, err := detMarshal.Marshal(p.m.Interface())
+	if err != nil || !bytes.Equal(p.before, after) {
+		return fmt.Errorf("message changed by a read-only traversal (deterministic encoding before %x, after %x, err %v)", p.before, after, err)
+	}
+	return nil
+}
+
+func resetOrder(n *node) {
+	n.order, n.next = -1, 0
+	for _, k := range n.kids {
+		resetOrder(k)
+	}
+}
+
+func runOne(c *rangeCase) (*runInfo, error) {
+	p, err := prepare(c)
+	if err != nil {
+		return nil, err
+	}
+	ri, err := p.run(c.Plan)
+	if err != nil {
+		return ri, err
+	}
+	return ri, p.unchanged()
+}
+
+func (p *prepared) run(plan []action) (*runInfo, error) {
+	c, m, root := *p.c, p.m, p.root
+	c.Plan = plan
+	ri := &runInfo{tree: p.info}
+
+	obs := &observer{root: m, res: p.eff, plan: map[int]string{}, bodiesOK: map[protoreflect.Message]bool{}}
 	for _, a := range c.Plan {
 		obs.plan[a.At] = a.Do
 	}
@@ -645,33 +792,35 @@ func runOne(c *rangeCase) (*runInfo, error) {
 	if c.Mode != "push" {
 		pop = func(p protopath.Values) error { return obs.see(false, p) }
 	}
-	gotErr := protorange.Options{Stable: c.Stable, Resolver: opt}.Range(m, push, pop)
+	gotErr := protorange.Options{Stable: c.Stable, Resolver: p.opt}.Range(m, push, pop)
 
 	if obs.bad != nil {
 		return ri, obs.bad
 	}
 	if !c.Stable {
+		resetOrder(root)
 		if err := adopt(root, obs.paths); err != nil {
 			return ri, err
 		}
 	}
-	w := expectedEvents(root, c)
+	w := expectedEvents(root, &c)
 	ri.fired, ri.events = w.fired, len(w.events)
 	for i := 0; i < len(w.events) || i < len(obs.events); i++ {
-		var want, got string = "<end of traversal>", "<end of traversal>"
+		if i < len(w.events) && i < len(obs.events) && w.events[i].equal(obs.events[i]) {
+			continue
+		}
+		want, got := "<end of traversal>", "<end of traversal>"
 		if i < len(w.events) {
-			want = w.events[i]
+			want = w.events[i].String()
 		}
 		if i < len(obs.events) {
-			got = obs.events[i]
+			got = obs.events[i].String()
 		}
-		if want != got {
-			ctx := ""
-			if i > 0 {
-				ctx = fmt.Sprintf(" (after %q)", obs.events[i-1])
-			}
-			return ri, fmt.Errorf("callback %d of the traversal%s:\n  got  %s\n  want %s\n  (reference: %d callbacks, observed: %d; plan %v, stable=%v, mode=%s)", i, ctx, got, want, len(w.events), len(obs.events), c.Plan, c.Stable, c.Mode)
+		ctx := ""
+		if i > 0 {
+			ctx = fmt.Sprintf(" (after %q)", obs.events[i-1].String())
 		}
+		return ri, fmt.Errorf("callback %d of the traversal%s:\n  got  %s\n  want %s\n  (reference: %d callbacks, observed: %d; plan %v, stable=%v, mode=%s)", i, ctx, got, want, len(w.events), len(obs.events), c.Plan, c.Stable, c.Mode)
 	}
 	switch {
 	case w.errs == 0 && gotErr != nil:
@@ -684,10 +833,6 @@ func runOne(c *rangeCase) (*runInfo, error) {
 		if !ok {
 			return ri, fmt.Errorf("Range returned %v, want the error a callback returned (%v)", gotErr, obs.returned)
 		}
-	}
-	// a traversal whose callbacks change nothing leaves the message alone (Any.value included, byte for byte)
-	if d := model.Diff(m.Descriptor(), before, model.Snapshot(m), model.EqualOpts{BitwiseFloats: true}, nil); d != "" {
-		return ri, fmt.Errorf("message changed by a read-only traversal: %s", d)
 	}
 	return ri, nil
 }
